@@ -72,6 +72,9 @@ def generate(rng: random.Random, batch: dict, depth: int = 0) -> dict:
                                 shipped_p=0.08)
     items = packgen.resolve_items(inst)
     packs = []
+    if rng.random() < 0.012:
+        inst = packgen.gen_huge_bin(rng)
+        items = inst["items"]
     if rng.random() < 0.2:
         # bins filled exactly + one tiny item alone in the last bin: the
         # packing whose value sits right at the declared lower bound
@@ -84,9 +87,10 @@ def generate(rng: random.Random, batch: dict, depth: int = 0) -> dict:
         x = [v if rng.random() < 0.6 else -v for v in base]
         edits = [{"kind": rng.choice(["shuffle_rows", "renumber_bins",
                                       "relocate", "relocate",
-                                      "rotate_in_place"]),
+                                      "rotate_in_place", "to_new_bin",
+                                      "to_new_bin"]),
                   "seed": rng.getrandbits(32)}
-                 for _ in range(rng.choice([0, 0, 1, 2, 4]))]
+                 for _ in range(rng.choice([0, 0, 1, 2, 4, 9]))]
         packs.append({"x": x, "encoder": rng.choice([1, 2]), "edits": edits})
     ops = []
     faults = batch.get("faults", False)
@@ -185,7 +189,7 @@ def _execute_one(doc: dict, name: str) -> dict:
         reach = True
         for e in pd["edits"]:
             rows2, nb = c04.apply_legal(rows, nb, W, H, e)
-            if rows2 != rows and e["kind"] in ("relocate",
+            if rows2 != rows and e["kind"] in ("relocate", "to_new_bin",
                                                "rotate_in_place"):
                 reach = False
             if e["kind"] == "shuffle_rows":
